@@ -146,7 +146,9 @@ def strategy():
         'prefix': st.integers(0, 2),
         'sub': st.integers(0, 63)})
     upd = st.fixed_dictionaries({'listeners': st.integers(0, 5), 'dts': st.lists(st.integers(0, 5), min_size=1,
-                                                                                max_size=4)})
+                                                                                max_size=4),
+                                 # scale: 0, or the number of frames of a long disabled and a long enabled run
+                                 'amp': worldops.size_amp(none=60, sizes=(70, 130, 300, 1100))})
     return st.fixed_dictionaries({'twin': twin, 'proto': proto, 'upd': upd})
 
 
@@ -485,6 +487,32 @@ def upd_part(spec, facts):
         if any(len(a) != 1 or a[0] is not dt for _i, a in log):
             viol('on_update_carries_the_frames_dt', dt=repr(dt), got=repr(log[:2]))
     facts['on_update_listeners:%d' % spec['listeners']] += 1
+    n = spec.get('amp') or 0
+    if n and keep:
+        # a world that keeps running while its dispatching is disabled (a level left for a menu): many frames, then
+        # it is enabled again - every listener is told about every one of those frames, once and in order; then a
+        # long enabled run
+        del log[:]
+        dts = [Fraction(k, 8) for k in range(n)]
+        w.dispatch_enabled = False
+        for dt in dts:
+            w.process(dt)
+        if log:
+            viol('on_update_delivered_while_dispatching_is_disabled', got=repr(log[:2]))
+        w.dispatch_enabled = True
+        for i in range(len(keep)):
+            got = [a[0] for j, a in log if j == i and len(a) == 1]
+            if len(got) != n or any(x is not y for x, y in zip(got, dts)):
+                viol('on_update_relayed_exactly_once_to_every_listener', listener=i, frames=n, received=len(got),
+                     first_received=repr(got[:1]), after='a disabled period')
+        del log[:]
+        for dt in dts:
+            w.process(dt)
+        for i in range(len(keep)):
+            got = [a[0] for j, a in log if j == i and len(a) == 1]
+            if len(got) != n or any(x is not y for x, y in zip(got, dts)):
+                viol('on_update_relayed_exactly_once_to_every_listener', listener=i, frames=n, received=len(got))
+        facts['many_frames'] += 1
 
 
 def run_case(case):
